@@ -229,6 +229,14 @@ func mergeValues(opts *options, old, v value) (value, Error) {
 		return v, nil
 	}
 
+	// references are resolved when they are read, not when they are merged
+	if _, dyn := old.(*cfgDynamic); dyn {
+		return v, nil
+	}
+	if _, dyn := v.(*cfgDynamic); dyn {
+		return v, nil
+	}
+
 	// check if new and old value evaluate to sub-configurations. If one is no
 	// sub-configuration, use new value only.
 	subOld, err := old.toConfig(opts)
